@@ -198,6 +198,17 @@ def violation_key(op, klass, refs=None):
 def confirm(replay, verbose=False):
     mc = mcx.Mc()
     try:
+        if replay["kind"] == "sep":
+            old_mc = mcx._worker_mc
+            mcx._worker_mc = mc
+            try:
+                v, _ = work_sep([replay["ops"]])
+            finally:
+                mcx._worker_mc = old_mc
+            if verbose:
+                for k, w, _ in v:
+                    print(" ", k, "—", w)
+            return {k for k, _, _ in v}
         if replay["kind"] == "history":
             h = replay["ops"]
             got = run_history(mc, h)
@@ -326,7 +337,66 @@ def census():
     return hits
 
 
+# ---------------------------------------------------------------------------------------------
+# separator mini-family: the derived separator preferences written ONE at a time (languages and DecimalSeparator always move both)
+
+SEP_OPS = [["pref", "BlockSeparators", "' "], ["pref", "BlockSeparators", ", "], ["pref", "DecimalSeparators", ","], ["pref", "DecimalSeparators", "."]]
+SEP_EXPRS = [EXPRS[1],
+             terms.doc(row(mn("2"), mo(","), mn("500"), mo("+"), mn("1"), mo("'"), mn("234"), mo("+"), mn("3"), mo("."), mn("5"), mo("+"), mn("7"), mo(" "), mn("000")))]
+SEP_GETTERS = [["speech"], ["braille", ""]]
+
+
+def sep_histories(tier):
+    """every sequence over {4 separator writes, set_mathml(E)} up to a length, then set_mathml(E) and one getter"""
+    maxlen = 3 if tier == "quick" else 5
+    out = []
+    for e in SEP_EXPRS:
+        alpha = SEP_OPS + [["mathml", e]]
+        for n in range(0, maxlen + 1):
+            for seq in itertools.product(range(len(alpha)), repeat=n):
+                if n and not any(i == len(alpha) - 1 for i in seq):
+                    continue                 # without an earlier set_mathml nothing is cached: that is a fresh session
+                for g in SEP_GETTERS:
+                    out.append([alpha[i] for i in seq] + [["mathml", e], g])
+    return out
+
+
+def sep_reference(h):
+    last = {}
+    for op in h:
+        if op[0] == "pref":
+            last[op[1]] = op[2]
+    return [["pref", k, v] for k, v in last.items()] + h[-2:]
+
+
+def work_sep(hists):
+    mc = mcx.worker_mc()
+    _, got = mc.run_cases(SETUP, hists, fresh=True)
+    _, ref = mc.run_cases(SETUP, [sep_reference(h) for h in hists], fresh=True)
+    viol = []
+    for h, a, b_ in zip(hists, got, ref):
+        x, y = obs_norm(a[-1]), obs_norm(b_[-1])
+        m1, m2 = obs_norm(a[-2]), obs_norm(b_[-2])
+        if x != y or m1 != m2:
+            changed = sorted({op[1] for op in h if op[0] == "pref"})
+            what = "canonical MathML" if m1 != m2 else h[-1][0]
+            viol.append((f"C10|history|separators|{what.split()[0]}|written:{'+'.join(changed) or '-'}",
+                         f"call history [{', '.join(opname_sep(o) for o in h)}]: {what} is {short(x if m1 == m2 else m1, 140)} but a fresh session with the same separator preferences gives {short(y if m1 == m2 else m2, 140)}",
+                         {"kind": "sep", "ops": h}))
+    return viol, len(hists)
+
+
+def opname_sep(op):
+    if op[0] == "pref":
+        return f"{op[1]}={op[2]!r}"
+    if op[0] == "mathml":
+        return f"set_mathml(S{SEP_EXPRS.index(op[1]) + 1})"
+    return op[0]
+
+
 def _dispatch(job):
+    if job[0] == "P":
+        return ("P",) + work_sep(job[1])
     if job[0] == "S":
         return ("S",) + work_session(job[1:])
     if job[0] == "R":
@@ -528,6 +598,15 @@ def main(tier):
         print("MACHINERY-ERROR property=C10: mismatches that do not replay: " + "; ".join(unstable[:5]))
         return 2
     run.counters["phase_s_minimise"] = round(run.elapsed(), 1)
+    # separator mini-family
+    sh = sep_histories(tier)
+    run.count("separator_histories", len(sh))
+    for out in mcx.pmap(_dispatch, [("P", sh[i:i + 40]) for i in range(0, len(sh), 40)]):
+        _, viol, n = out
+        run.merge_violations(viol)
+        run.count("evaluations", n)
+        transitions += n * 4
+    run.counters["phase_s_separators"] = round(run.elapsed(), 1)
     # E3
     two, three = script_tuples(tier)
     sjobs = []
@@ -558,7 +637,8 @@ def main(tier):
              "from the initial state that ends in an observation" + (", plus every 'preference, set_mathml, preference, observation' history" if tier == "quick" else "") +
              f", each in a fresh session; (b) a de Bruijn sequence of order {order} over the alphabet ({len(seq)} calls) run as {nseg} long sessions, so every window of "
              f"{order} calls occurs after a long earlier history; every observation compared with a switch-free fresh-session reference; "
-             f"(c) {len(two)} two-thread and {len(three)} three-thread script tuples, ALL interleavings at API-call granularity under the controlled scheduler. "
+             f"(b') the derived separator preferences written one at a time: every sequence over 4 separator writes and set_mathml up to length {3 if tier == 'quick' else 5}, then set_mathml and a getter, "
+             f"against a fresh session with the final separator values; (c) {len(two)} two-thread and {len(three)} three-thread script tuples, ALL interleavings at API-call granularity under the controlled scheduler. "
              "states = distinct reference-model states (preferences, expression, navigation commands since set, observation) reached; transitions = API calls executed; "
              "distinct_nontrivial = distinct (model state, result) pairs",
         coverage_extra={"states": len(states), "transitions": transitions, "traces_validated_against_impl": len(sessions) + nsched,
